@@ -18,8 +18,8 @@ CHECKS = {
          "All combinations of the 10 phrase forms, both percent spellings, plain/money operand spellings (codes and symbols), operand held in a variable, and boundary-rich X/A/B/p grids (zero, negative, fractional, large) are evaluated and compared (kind, currency, amount within 1e-9) with the formulas of the statement.",
          "Grids are finite sets of doubles, not all doubles." + COMMON_NOTE,
          "DESIGN.md section 6 C05"),
- "C06": ("exhaustive enumeration of literal spellings, all ordered currency pairs, arithmetic pairs and all rate-update histories up to depth d on the real code vs. a rate-table model",
-         "Every literal spelling of every rated currency/alias/symbol, all 32x32 ordered conversion pairs, all arithmetic pairs, and every sequence of update_currency calls up to the stated depth (each on a fresh calculator, whole probe matrix re-evaluated after every call) are compared with amount*rate(B)/rate(A) over a model table that the harness maintains itself.",
+ "C06": ("exhaustive enumeration of literal spellings, all ordered currency pairs, arithmetic pairs and all rate-update histories up to depth d on the real code vs. a rate-table model; plus merged explicit-state BFS over update_currency to a fixed point (all reachable rate tables)",
+         "Every literal spelling of every rated currency/alias/symbol, all 32x32 ordered conversion pairs, all arithmetic pairs, and every sequence of update_currency calls up to the stated depth (each on a fresh calculator, whole probe matrix re-evaluated after every call) are compared with amount*rate(B)/rate(A) over a model table that the harness maintains itself. A second layer is an explicit-state breadth-first search over operation histories with state merging (model state + observational fingerprint of the implementation as the canonical key, every edge executed on the real code by replaying the shortest history to its source state); its states, edges, per-depth counts and whether a fixed point was reached are in the evidence (DESIGN.md section 12.2). For this property the search reaches a fixed point: every rate table reachable with the stated names and rates is visited and every update is tried in it.",
          "Rates, currency records and aliases are read from config.json (they are the specification); code/alias before the amount, n*M, M1*M2 and currencies without a rate are unspecified." + COMMON_NOTE,
          "DESIGN.md section 6 C06"),
  "C07": ("exhaustive enumeration of (value grid x digits x flags x separators x kind) on the real code vs. an exact decimal-arithmetic acceptance predicate",
@@ -50,12 +50,12 @@ CHECKS = {
          "'N to date' / 'N to Z' / 'N Z' for boundary-rich timestamps (0, +-1, +-86399/86400, 2^31-1, 2^31, 2^32, month starts around 1970 and 2038, leap days, 10^k, first/last second of years 1 and 9999, both signs) under four default zones: instant, zone, printed fields compared; '<date> as unix' and '<time> as unix' compared with the day-number model; 'x = N to date; x as unix' must give N digit for digit.",
          "Which instant 'D at T' denotes is not part of the statement: '<date-time> as unix' is compared with the instant of the observed date-time value." + COMMON_NOTE,
          "DESIGN.md section 6 C14"),
- "C03": ("exhaustive enumeration of straight-line programs over line alphabets on the real code (run three ways) vs. a reference environment",
-         "Every program up to the stated depth over 26 numeric line kinds (bindings, re-bindings through case variants, copies, self-reference, multi-word names and a look-alike concatenation, negated/adjacent uses, syntax and evaluation failures on bound and fresh names, blank and comment lines) and bind/middle/use programs for all seven value kinds is run as one LF text, one CRLF text and line by line through a re-used session; every line the reference environment (lower-cased word sequence -> value, leftmost-then-longest lookup, failing lines change nothing) predicts is compared.",
+ "C03": ("exhaustive enumeration of straight-line programs over line alphabets on the real code (run three ways) vs. a reference environment; plus merged explicit-state BFS over programs (line appended per edge) to depth 6/10",
+         "Every program up to the stated depth over 26 numeric line kinds (bindings, re-bindings through case variants, copies, self-reference, multi-word names and a look-alike concatenation, negated/adjacent uses, syntax and evaluation failures on bound and fresh names, blank and comment lines) and bind/middle/use programs for all seven value kinds is run as one LF text, one CRLF text and line by line through a re-used session; every line the reference environment (lower-cased word sequence -> value, leftmost-then-longest lookup, failing lines change nothing) predicts is compared. A second layer is an explicit-state breadth-first search over operation histories with state merging (model state + observational fingerprint of the implementation as the canonical key, every edge executed on the real code by replaying the shortest history to its source state); its states, edges, per-depth counts and whether a fixed point was reached are in the evidence (DESIGN.md section 12.2).",
          "Uses of unbound names and of names whose only assignment failed are unspecified; the model reads only the generated line forms." + COMMON_NOTE,
          "DESIGN.md section 6 C03"),
- "C04": ("exhaustive enumeration of call histories (execute sequences on one calculator; set_text/execute_session/execute sequences over two sessions) on the real code with differential oracles against fresh calculators and a per-session reference environment",
-         "Every sequence up to the stated depth of execute(t) calls over texts that touch every shared structure, every sequence of evaluations of one line shape with different operands (to hit caches keyed by shape), and every sequence of session operations over two sessions and plain evaluations is executed; each observation (values, outputs, UI tokens) must equal that of a calculator used once, each session must behave as when its own operations are replayed alone on a fresh calculator (isolation), and slot counts/values/persistence must follow the reference environment.",
+ "C04": ("exhaustive enumeration of call histories (execute sequences on one calculator; set_text/execute_session/execute sequences over two sessions) on the real code with differential oracles against fresh calculators and a per-session reference environment; plus setter/evaluation histories against a freshly configured calculator and a merged explicit-state BFS over session operations",
+         "Every sequence up to the stated depth of execute(t) calls over texts that touch every shared structure, every sequence of evaluations of one line shape with different operands (to hit caches keyed by shape), and every sequence of session operations over two sessions and plain evaluations is executed; each observation (values, outputs, UI tokens) must equal that of a calculator used once, each session must behave as when its own operations are replayed alone on a fresh calculator (isolation), and slot counts/values/persistence must follow the reference environment. A second layer is an explicit-state breadth-first search over operation histories with state merging (model state + observational fingerprint of the implementation as the canonical key, every edge executed on the real code by replaying the shortest history to its source state); its states, edges, per-depth counts and whether a fixed point was reached are in the evidence (DESIGN.md section 12.2). Reconfiguration histories interleave the public setters with evaluations on one calculator and compare every evaluation with a fresh calculator that was only given the configuration in force.",
          "The property is observational: hidden state that never changes a result is invisible by design. The effect of calling execute_session twice on the same text is unspecified." + COMMON_NOTE,
          "DESIGN.md section 6 C04"),
  "C08": ("exhaustive enumeration of (corpus line x literal fillings) rendered and evaluated under all four separator conventions on the real code; differential oracle",
@@ -70,8 +70,8 @@ CHECKS = {
          "Every corpus line is rewritten from its tags: every gap doubled/tripled, leading/trailing blanks, ' # text' appended and '# text' as an own line with text = every atom sequence up to length 2 (3 on a line subset) over an alphabet chosen for what the tokenizer could mistake it for, and every letter-case pattern of each keyword class (currency codes, month names, zone names, connectives, variable uses) one at a time and all at once; values must be unchanged; blank/comment-only lines must evaluate to nothing.",
          "Letter case of unit names, duration words, am/pm and atom/field syntax is not varied; TAB is not a blank." + COMMON_NOTE,
          "DESIGN.md section 6 C16"),
- "C18": ("exhaustive enumeration of registration/deletion histories on the real code vs. a model of survivors, with a differential oracle against fresh calculators replaying only the survivors",
-         "Every sequence up to the stated depth over add_rule (three languages, four rules incl. a declining one and a name clash), delete_rule, add_dynamic_type and add_dynamic_type_item (incl. a rejected duplicate with other codes) runs on its own calculator: every return value is compared with the model; after the last call 21 probe lines (en, tr) are compared with a fresh calculator on which only the survivors were registered in order, with the token the first matching non-declining rule returns, and with the chain arithmetic of the user family.",
+ "C18": ("exhaustive enumeration of registration/deletion histories on the real code vs. a model of survivors, with a differential oracle against fresh calculators replaying only the survivors; plus merged explicit-state BFS over all operations under a state constraint",
+         "Every sequence up to the stated depth over add_rule (three languages, four rules incl. a declining one and a name clash), delete_rule, add_dynamic_type and add_dynamic_type_item (incl. a rejected duplicate with other codes) runs on its own calculator: every return value is compared with the model; after the last call 21 probe lines (en, tr) are compared with a fresh calculator on which only the survivors were registered in order, with the token the first matching non-declining rule returns, and with the chain arithmetic of the user family. A second layer is an explicit-state breadth-first search over operation histories with state merging (model state + observational fingerprint of the implementation as the canonical key, every edge executed on the real code by replaying the shortest history to its source state); its states, edges, per-depth counts and whether a fixed point was reached are in the evidence (DESIGN.md section 12.2).",
          "Deleting a name shared by two surviving rules is ambiguous in the statement (both outcomes accepted)." + COMMON_NOTE,
          "DESIGN.md section 6 C18"),
  "C19": ("exhaustive enumeration of lines given by meaning x synonyms x languages on the real code; differential oracle against the English counterpart",
